@@ -28,21 +28,57 @@ type meta struct {
 	logs    string // EVM logs of a successful call: "<n>" or "<n>+<r>" (one more when marker r is set; sets marker r)
 }
 
+// inner: the EVM call a precompile call makes on the same StateDB — ERC-20 `transferFrom` on a hook token: the token
+// contract (a fixed forwarder) CALLs its hook contract, whose code is a generated body, and answers `true` when that
+// returns normally (REVERT otherwise).
+type inner struct {
+	k        int        // which hook token
+	tokNode  *evmx.Node // synthetic: the frame precompile -> token
+	hookNode *evmx.Node // synthetic: the frame token -> hook contract; Body = generated program
+}
+
 type program struct {
 	root  []*evmx.Node
 	addrs []common.Address // frame contracts in use (root first)
 	meta  map[int]*meta    // pre node id -> method info
 	nodes map[int]*evmx.Node
 	ctxOf map[int]common.Address // node id -> storage/caller context address of the frame executing it
+	inner map[int]*inner         // pre node id -> EVM call made from inside its native action
+	used  map[int]bool           // hook tokens in use
 	next  int
+	body  func(depth int, ctx common.Address, static bool) []*evmx.Node
+	depth int // depth of the frame being generated (for genPre)
+}
+
+// byte code of a hook token: CALL(gas, hook, 0, 0, 0, 0, 0); success ? return uint256(1) : REVERT
+const tokenCallPc = 0x20
+
+func tokenCode(hook common.Address) []byte {
+	c := []byte{0x60, 0, 0x60, 0, 0x60, 0, 0x60, 0, 0x60, 0, 0x73}
+	c = append(c, hook.Bytes()...)
+	c = append(c, 0x5a, 0xf1, 0x60, 0x29, 0x57, 0x60, 0, 0x60, 0, 0xfd, 0x5b, 0x60, 1, 0x60, 0, 0x52, 0x60, 0x20, 0x60, 0, 0xf3)
+	return c
+}
+
+var tokenOpPcs = []int{0, 2, 4, 6, 8, 0x0a, 0x1f, 0x20, 0x21, 0x23, 0x24, 0x26, 0x28, 0x29, 0x2a, 0x2c, 0x2e, 0x2f, 0x31, 0x33}
+
+func (p *program) newInner(k int, tok, hook common.Address, body []*evmx.Node) *inner {
+	p.next++
+	hn := &evmx.Node{Op: "call", ID: p.next, Kind: evmx.KCall, To: hook, Body: body, PcStart: 0, PcCall: tokenCallPc, PcEnd: 0x29, OpPcs: tokenOpPcs[:13]}
+	p.next++
+	tn := &evmx.Node{Op: "call", ID: p.next, Kind: evmx.KCall, To: tok, Body: []*evmx.Node{hn}, PcCall: -1}
+	return &inner{k: k, tokNode: tn, hookNode: hn}
 }
 
 func (e *env) genProgram(rng *rand.Rand) *program {
-	p := &program{meta: map[int]*meta{}, nodes: map[int]*evmx.Node{}, ctxOf: map[int]common.Address{}}
+	p := &program{meta: map[int]*meta{}, nodes: map[int]*evmx.Node{}, ctxOf: map[int]common.Address{}, inner: map[int]*inner{}, used: map[int]bool{}}
 	p.addrs = []common.Address{e.pool[0]}
 	var gen func(depth int, ctx common.Address, static bool) []*evmx.Node
 	gen = func(depth int, ctx common.Address, static bool) []*evmx.Node {
 		n := 2 + rng.Intn(4)
+		if depth >= 3 {
+			n = 1 + rng.Intn(3)
+		}
 		var out []*evmx.Node
 		for i := 0; i < n; i++ {
 			p.next++
@@ -56,7 +92,8 @@ func (e *env) genProgram(rng *rand.Rand) *program {
 					nd = nil // mostly avoid SSTORE in static frames (it fails the frame)
 				}
 			case r < 65:
-				p.meta[id] = e.genPre(rng, nd, ctx, static)
+				p.depth = depth
+				p.meta[id] = e.genPre(rng, p, nd, ctx, static)
 				nd.Op = "pre"
 			case r < 85 && depth < 3 && len(p.addrs) < nPool:
 				nd.Op = "call"
@@ -96,6 +133,7 @@ func (e *env) genProgram(rng *rand.Rand) *program {
 		}
 		return out
 	}
+	p.body = gen
 	p.root = gen(0, e.pool[0], false)
 	return p
 }
@@ -105,7 +143,7 @@ var preMethods = []string{"delegateV2", "delegateV2", "undelegateV2", "redelegat
 	"increaseBridgeFee", "increaseBridgeFee", "bridgeCall", "bridgeCall", "bridgeCall", "executeClaim", "executeClaim", "delegation", "hasOracle", "delegationRewards", "delegationRewards"}
 
 // genPre fills a precompile call: method, calldata, kind, value, intended outcome.
-func (e *env) genPre(rng *rand.Rand, nd *evmx.Node, ctx common.Address, static bool) *meta {
+func (e *env) genPre(rng *rand.Rand, p *program, nd *evmx.Node, ctx common.Address, static bool) *meta {
 	sabi := fxstakingtypes.GetABI()
 	cabi := crosschaintypes.GetABI()
 	m := hx.Pick(rng, preMethods)
@@ -173,7 +211,24 @@ func (e *env) genPre(rng *rand.Rand, nd *evmx.Node, ctx common.Address, static b
 		a, f := big.NewInt(int64(1000+nd.ID)), big.NewInt(int64(10+nd.ID))
 		receipt := helpers.GenExternalAddr(ethtypes.ModuleName)
 		token := common.Address{}
-		if len(tokens) > 0 && rng.Intn(2) == 0 {
+		hookK := -1
+		for k := range e.hookTok {
+			if !p.used[k] && p.depth < 3 && len(p.inner) < len(e.hookTok) {
+				hookK = k
+				break
+			}
+		}
+		if hookK >= 0 && rng.Intn(4) == 0 {
+			// a native ERC-20 whose transferFrom runs a generated program (storage writes, value moves, precompile calls —
+			// native actions INSIDE this call's native action) before it answers
+			token = e.hookTok[hookK]
+			variant = m + "/hook-token"
+			p.used[hookK] = true
+			depth := p.depth
+			body := p.body(depth+1, e.hookAddr[hookK], static)
+			p.depth = depth
+			p.inner[nd.ID] = p.newInner(hookK, token, e.hookAddr[hookK], body)
+		} else if len(tokens) > 0 && rng.Intn(2) == 0 {
 			token = hx.Pick(rng, tokens)
 			variant = m + "/" + tokName(token)
 			if static {
@@ -188,8 +243,13 @@ func (e *env) genPre(rng *rand.Rand, nd *evmx.Node, ctx common.Address, static b
 				mode = "fail" // without msg.value the zero token address is looked up as an ERC-20
 			}
 		}
+		isHook := p.inner[nd.ID] != nil
 		if mode == "fail" && (canPay || token != (common.Address{})) {
-			switch rng.Intn(3) {
+			pick := rng.Intn(3)
+			if isHook && pick == 0 {
+				pick = 1 // a hook token does not look at amounts
+			}
+			switch pick {
 			case 0:
 				if token == (common.Address{}) {
 					f = big.NewInt(1) // amount + fee != msg.value
